@@ -222,7 +222,10 @@ class Recorder:
         import pytenet.krylov as kr
         self.kr = kr
         self._norm, self._exp = np.linalg.norm, np.exp
-        self._saved = {k: getattr(kr, k) for k in ('eigh_tridiagonal', 'expm', 'lanczos_iteration', 'arnoldi_iteration')}
+        # names that a harmless refactoring may rename / import differently: hooks that cannot be placed are recorded in
+        # `missing` (the correspondence then reports a broken tie, 'no-failing-input-found'); the implementation still runs
+        self._saved = {k: getattr(kr, k) for k in ('eigh_tridiagonal', 'expm', 'lanczos_iteration', 'arnoldi_iteration') if hasattr(kr, k)}
+        self.missing = [k for k in ('eigh_tridiagonal', 'expm', 'lanczos_iteration', 'arnoldi_iteration') if not hasattr(kr, k)]
         rec = self
 
         def from_krylov():
@@ -261,7 +264,10 @@ class Recorder:
             return out
 
         np.linalg.norm, np.exp = norm, exp
-        kr.eigh_tridiagonal, kr.expm = eigh, expm
+        if 'eigh_tridiagonal' in self._saved:
+            kr.eigh_tridiagonal = eigh
+        if 'expm' in self._saved:
+            kr.expm = expm
         self._cw = warnings.catch_warnings(record=True)
         self._wl = self._cw.__enter__()
         warnings.simplefilter('always')
@@ -269,7 +275,10 @@ class Recorder:
         return self
 
     def patch_iterations(self):
-        self.kr.lanczos_iteration, self.kr.arnoldi_iteration = self._patch_iter
+        if 'lanczos_iteration' in self._saved:
+            self.kr.lanczos_iteration = self._patch_iter[0]
+        if 'arnoldi_iteration' in self._saved:
+            self.kr.arnoldi_iteration = self._patch_iter[1]
 
     def __exit__(self, *exc):
         np.linalg.norm, np.exp = self._norm, self._exp
